@@ -4,8 +4,9 @@ module: these are the slowest kernel steps of C17, lake checks the modules in pa
 namespace Fit.C17.Lemmas
 open Fit.ProfileSpec Fit.Gen Fit.C17
 
-theorem fieldnum_ok :
-    sortedPairs Untyped.fieldnum = sortedPairs (expectedFieldnum (Xlsx.mesgs.map (Mesg.fix f14))) := by
+theorem mesgnum_ok :
+    sortedPairs Untyped.mesgnum = sortedPairs (expectedMesgnum (Xlsx.types.map (TypeRow.fix f14))) ∧
+    nodupNat (Untyped.mesgnum.map (fun p => normIdent p.1)) = true := by
   decide +kernel
 
 end Fit.C17.Lemmas
